@@ -11,7 +11,14 @@ The structure of the input space comes from SqlGrammar.tla:
   (c) all token sequences up to a bounded length over the vocabulary, written with
       blanks and without any separator;
   (d) seeded random inputs: random bytes, random text over an SQL alphabet, random
-      token soups, byte-level mutations of valid statements.
+      token soups, byte-level mutations of valid statements, long padded texts cut
+      inside a character;
+  (e) texts around the scanner's buffer size (1024 bytes): for cover statements,
+      among them statements with 2-, 3- and 4-byte characters in literals and
+      identifiers, every byte-wise truncation (also inside a character), and the text
+      padded to every length in 1015..1035 and 2040..2060 bytes and to 10 KB by
+      trailing/leading blanks, comments, a long string literal, many VALUES rows, and
+      shifted so that each byte in turn starts a refill of the buffer.
 Every input is rendered to bytes and pushed through sql.NewTokenScanner +
 sql.Parser.Parse exactly as engine.parseSQL does, in a goroutine under recover()
 with a 2 s watchdog and an allocation meter.  Postcondition (SqlGrammar!Outcomes):
@@ -31,12 +38,14 @@ TIERS = {
     # junk: list of machine runs (cover statements, vocab of first junk token, of further ones, budget, tail)
     "quick": dict(
         junk=[dict(tag="j1", stmts="MC_Cover", vocab="MC_FullVocab", vocab2="MC_Vocab2", max_junk=1, max_tail=1)],
-        seq_len=2, random=30000),
+        seq_len=2, random=30000, long_stmts="MC_CoverLong"),
     "thorough": dict(
         junk=[dict(tag="j1", stmts="MC_Cover", vocab="MC_FullVocab", vocab2="MC_Vocab2", max_junk=1, max_tail=8),
               dict(tag="j2", stmts="MC_CoverSmall", vocab="MC_Vocab2", vocab2="MC_Vocab2", max_junk=2, max_tail=1)],
-        seq_len=3, random=400000),
+        seq_len=3, random=400000, long_stmts="MC_CoverLong"),
 }
+
+MAX_HANGS = 5    # every hang costs a watchdog period and a worker restart; a handful is proof enough
 
 ALPHABET = "abcxyzSELCTFROMWH019 \t\n'\"`.,;()*=<>!-/_\\%#@\x00"
 
@@ -76,7 +85,7 @@ def _run(ctx, pool):
     all_kinds = {int(k): v for k, v in info["kinds"].items()}
     lex_known = set(info["lex"])
 
-    st = dict(evaluations=0, by_phase={}, by_result={}, max_alloc=0, max_ntok=0)
+    st = dict(evaluations=0, by_phase={}, by_result={}, max_alloc=0, max_ntok=0, max_nbytes=0)
     nonvalid = set()    # distinct inputs (by 64-bit hash) that are not valid statements
     valid = set()
     kinds_seen = set()
@@ -88,15 +97,24 @@ def _run(ctx, pool):
     configs = []
     phase = ["?"]
     nreq = [0]
+    hangs = [0]
+    retry = []          # requests whose worker died under them (re-run one at a time at the end)
+
+    def stopped():
+        return hangs[0] >= MAX_HANGS
 
     def make_request(scn):
         toks = scn["toks"]
+        if fe.has_escape(toks):
+            toks = fe.unescape(toks)
         nreq[0] += 1
         for t in toks:
             if t[0] == "LEX":
                 lex_used.add(t[1])
         if toks:
             vocab_seen.add((toks[-1][0], toks[-1][1]))
+        if phase[0] == "long":
+            return dict(mode="c09", toks=toks, pads=True, cuts=True, echo=False)
         return dict(mode="c09", toks=toks, glue=phase[0] == "sequences", echo=(nreq[0] % 97 == 0))
 
     def record(out, what):
@@ -110,11 +128,13 @@ def _run(ctx, pool):
             kinds_seen.add(k)
         st["max_alloc"] = max(st["max_alloc"], out["alloc"])
         st["max_ntok"] = max(st["max_ntok"], out["ntok"])
+        st["max_nbytes"] = max(st["max_nbytes"], out["nbytes"])
         fid = None
         if r == "panic":
             fid = fe.panic_id(out.get("sig"), out.get("panic"))
         elif r == "hang":
             fid = "front-end-hang"
+            hangs[0] += 1
         elif out["alloc"] > mem_limit(out["nbytes"]):
             fid = "front-end-memory"
         elif out["ntok"] > out["nbytes"]:
@@ -134,11 +154,25 @@ def _run(ctx, pool):
                 samples.append(dict(phase=phase[0], input=out["in"], result=r, error=out.get("err")))
 
     def on_result(req, res):
+        if res.get("fatal"):
+            retry.append(req)       # the worker died; who is to blame is settled below, one request at a time
+            return
         if not res.get("ok"):
             raise vlib.Undecided("harness error: %r" % (res,))
         with lock:
             for out in res["outs"]:
                 record(out, req.get("toks") or req.get("raw"))
+
+    def on_retry(req, res):
+        if res.get("fatal"):
+            v = viol.setdefault("front-end-fatal-crash", dict(count=0, example=None, phases=set()))
+            v["count"] += 1
+            v["phases"].add("retry")
+            if v["example"] is None:
+                v["example"] = dict(res="fatal", nbytes=0, ntok=0, what=req.get("toks") or req.get("raw"), phase="retry",
+                                    panic="; ".join(res.get("viol", []))[:600])
+            return
+        on_result(req, res)
 
     # ---- the machine itself (design level; a failure here is a machinery problem, never a verdict):
     # every junk-free reachable state is a truncation of the picked statement's token sequence
@@ -151,35 +185,56 @@ def _run(ctx, pool):
 
     # ---- (a) + (b): truncations of valid statements, with junk
     for j in tier["junk"]:
+        if stopped():
+            break
         phase[0] = "truncations+junk<=%d" % j["max_junk"]
         res = fe.stream_tlc(ctx, pool, "c09" + j["tag"],
                             fe.cfg("S", ["given"], stmts=j["stmts"], vocab=j["vocab"], vocab2=j["vocab2"], max_junk=j["max_junk"],
                                    max_tail=j["max_tail"], emit="toks", init="GenPick", next_="GenNext"),
-                            make_request, on_result, timeout=1800, chunk=256)
+                            make_request, on_result, timeout=1800, chunk=64, stop=stopped)
         configs.append(dict(run=phase[0], stmts=j["stmts"], vocab=j["vocab"], max_tail=j["max_tail"], distinct_states=res.distinct,
                             generated=res.generated, scenarios=res.scenarios, tlc_wall_s=round(res.wall, 1)))
+    # ---- (e): texts around the scanner's buffer size, byte-wise truncations
+    if not stopped():
+        phase[0] = "long"
+        res = fe.stream_tlc(ctx, pool, "c09long",
+                            fe.cfg("S", ["given"], stmts=tier["long_stmts"], emit="toks", init="GenPick", next_="GenNextComplete"),
+                            make_request, on_result, timeout=900, chunk=2, stop=stopped)
+        configs.append(dict(run="complete cover statements: byte-wise truncations, paddings around 1024/2048/10240 bytes",
+                            stmts=tier["long_stmts"], distinct_states=res.distinct, generated=res.generated, scenarios=res.scenarios,
+                            tlc_wall_s=round(res.wall, 1)))
     # ---- (c): all token sequences
-    phase[0] = "sequences"
-    res = fe.stream_tlc(ctx, pool, "c09seq",
-                        fe.cfg("S", ["given"], vocab="MC_SeqVocab", vocab2="MC_SeqVocab", max_junk=tier["seq_len"], emit="toks",
-                               init="SeqPick", next_="SeqNext"),
-                        make_request, on_result, timeout=1800, chunk=256)
-    configs.append(dict(run="all token sequences of length <= %d, with blanks and glued" % tier["seq_len"], distinct_states=res.distinct,
-                        generated=res.generated, scenarios=res.scenarios, tlc_wall_s=round(res.wall, 1)))
-    # the empty input and white space only
-    phase[0] = "sequences"
-    pool.run_all([dict(mode="c09", raw="", echo=False), dict(mode="c09", raw=base64.b64encode(b" \n\t ").decode())], on_result)
+    if not stopped():
+        phase[0] = "sequences"
+        res = fe.stream_tlc(ctx, pool, "c09seq",
+                            fe.cfg("S", ["given"], vocab="MC_SeqVocab", vocab2="MC_SeqVocab", max_junk=tier["seq_len"], emit="toks",
+                                   init="SeqPick", next_="SeqNext"),
+                            make_request, on_result, timeout=1800, chunk=64, stop=stopped)
+        configs.append(dict(run="all token sequences of length <= %d, with blanks and glued" % tier["seq_len"], distinct_states=res.distinct,
+                            generated=res.generated, scenarios=res.scenarios, tlc_wall_s=round(res.wall, 1)))
+        # the empty input and white space only
+        pool.run_all([dict(mode="c09", raw="", echo=False), dict(mode="c09", raw=base64.b64encode(b" \n\t ").decode())], on_result)
 
     # ---- (d): seeded random inputs
     phase[0] = "random"
     vocab = sorted(vocab_seen)
-    if len(vocab) < 50 or not valid_texts:
+    if not stopped() and (len(vocab) < 50 or not valid_texts):
         raise vlib.Undecided("vacuous: %d vocabulary tokens, %d valid texts collected" % (len(vocab), len(valid_texts)))
+    UNI = ["\u00e9", "\u6771", "\U0001F600"]
 
     def random_requests(n):
         for i in range(n):
+            if stopped():
+                return
             kind = i % 4
-            if kind == 0:
+            if i % 64 == 63:
+                # a long text: a valid statement, a run of blanks up to a length around the buffer size, then a
+                # character of 2-4 bytes cut after any of its bytes
+                t = rng.choice(valid_texts).encode()
+                total = rng.choice([1024, 2048, 3072]) + rng.randrange(-6, 7)
+                ch = rng.choice(UNI).encode()
+                b = t + b" " * max(1, total - len(t) - 2) + b"'" + ch[:rng.randrange(1, len(ch) + 1)]
+            elif kind == 0:
                 b = bytes(rng.randrange(256) for _ in range(rng.randrange(0, 48)))
             elif kind == 1:
                 b = "".join(rng.choice(ALPHABET) for _ in range(rng.randrange(0, 64))).encode()
@@ -201,27 +256,46 @@ def _run(ctx, pool):
                 b = bytes(b)
             yield dict(mode="c09", raw=base64.b64encode(b).decode() if b else "", echo=(i % 997 == 0))
 
-    pool.run_all(random_requests(tier["random"]), on_result, chunk=256)
+    if not stopped():
+        pool.run_all(random_requests(tier["random"]), on_result, chunk=64)
 
-    # ---- vacuity
-    missing = sorted(set(all_kinds) - kinds_seen)
-    if missing:
-        raise vlib.Undecided("vacuous: token kinds never produced by the scanner: " + ", ".join(all_kinds[k] for k in missing))
-    if lex_known - lex_used:
-        raise vlib.Undecided("vacuous: lexical classes never generated: " + ", ".join(sorted(lex_known - lex_used)))
-    for r in ("stmt", "error"):
-        if not st["by_result"].get(r):
-            raise vlib.Undecided("vacuous: no input gave outcome '%s'" % r)
-    if len(st["by_phase"]) < 3:
-        raise vlib.Undecided("vacuous: phases run: %r" % (st["by_phase"],))
+    # ---- requests whose worker died: one at a time, so that a death is blamed on the right input
+    if retry:
+        phase[0] = "retry"
+        again, retry[:] = list(retry), []
+        pool.run_all(again, on_retry, chunk=1)
+
+    if stopped():
+        ctx.note("stopped feeding inputs after %d hangs (each costs a watchdog period); coverage of this run is partial" % hangs[0])
+
+    # ---- vacuity (of a complete run)
+    if not stopped():
+        missing = sorted(set(all_kinds) - kinds_seen)
+        if missing:
+            raise vlib.Undecided("vacuous: token kinds never produced by the scanner: " + ", ".join(all_kinds[k] for k in missing))
+        if lex_known - lex_used:
+            raise vlib.Undecided("vacuous: lexical classes never generated: " + ", ".join(sorted(lex_known - lex_used)))
+        for r in ("stmt", "error"):
+            if not st["by_result"].get(r):
+                raise vlib.Undecided("vacuous: no input gave outcome '%s'" % r)
+        for ph in ("long", "sequences", "random"):
+            if not st["by_phase"].get(ph):
+                raise vlib.Undecided("vacuous: phase '%s' ran no input" % ph)
+        if st["max_nbytes"] < 10000:
+            raise vlib.Undecided("vacuous: longest input %d bytes" % st["max_nbytes"])
 
     # ---- violations: per signature, smallest input, re-run once before it is believed
     for fid in sorted(viol):
         v = viol[fid]
         ex = v["example"]
         raw = ex.get("in_b64") or base64.b64encode(ex.get("in", "").encode()).decode()
-        again = fe.one_request(pool, dict(mode="c09", raw=raw, echo=True))["outs"][0] if raw else None
-        if raw and fid not in ("front-end-memory", "front-end-token-count"):
+        again = None
+        if raw:
+            ans = fe.one_request(pool, dict(mode="c09", raw=raw, echo=True))
+            if ans.get("fatal"):
+                raise vlib.Undecided("the worker died while %s was re-run: %r" % (fid, ans))
+            again = ans["outs"][0]
+        if raw and fid not in ("front-end-memory", "front-end-token-count", "front-end-fatal-crash"):
             fid2 = fe.panic_id(again.get("sig"), again.get("panic")) if again["res"] == "panic" else ("front-end-hang" if again["res"] == "hang" else None)
             if fid2 != fid:
                 raise vlib.Undecided("violation %s did not reproduce on a second run (%r)" % (fid, again))
@@ -239,7 +313,8 @@ def _run(ctx, pool):
                     "input is not a valid statement (the front end returned an error, panicked or hung)",
                samples=samples, distinct_valid_statements=len(valid), by_phase=st["by_phase"], by_result=st["by_result"],
                token_kinds_seen=len(kinds_seen), token_kinds_total=len(all_kinds), lexical_classes=len(lex_used),
-               vocabulary_tokens=len(vocab), max_alloc_bytes=st["max_alloc"], max_tokens=st["max_ntok"], configs=configs,
+               vocabulary_tokens=len(vocab), max_alloc_bytes=st["max_alloc"], max_tokens=st["max_ntok"], max_input_bytes=st["max_nbytes"],
+               stopped_early_after_hangs=hangs[0] if stopped() else 0, configs=configs,
                violation_signatures={k: v["count"] for k, v in viol.items()}, exhaustive=False)
     vlib.write_evidence(ctx, "exploration", cov, assumptions=[
         "TLC/SANY and the CommunityModules Json module are correct",
